@@ -1,8 +1,9 @@
 import Hertz.Proofs.Conn
+import Hertz.Proofs.ConnCtl
 /-!
 # C13 — the buffered connection behaves as a lossless FIFO byte stream
 
-Property theorems only; lemmas live in `Hertz/Proofs/Conn.lean`.  Every statement is about the model
+Property theorems only; lemmas live in `Hertz/Proofs/Conn.lean` and `Hertz/Proofs/ConnCtl.lean`.  Every statement is about the model
 `Hertz/Model/Conn.lean` of `pkg/network/standard/{connection,buffer}.go` and `pkg/network/writer.go`,
 which the correspondence check (`bin/check C13`) holds to the Go code, and about the constants and
 branch conditions in `Hertz/Gen/Conn.lean`, regenerated from the Go source on every run.
@@ -90,29 +91,167 @@ theorem peek_stable_until_release (s : Reader) (w : Wire) (op : Op) (o : Out) (s
     Extends s.nodes s'.nodes ∧ s.caches <+: s'.caches :=
   step_stable s w op o s' w' hk h
 
+/-- Refinement of the control rules: every trace of the reader is accepted by the control acceptor
+`acceptsCtl` of `Spec/Fifo.lean` — `Len()` is the count of buffered-but-unconsumed bytes, an operation
+that can be answered from the buffer neither fails nor changes `Len()` except by what it consumes,
+`Skip(n)` fails iff `n > Len()`, nothing lying behind an unreported wire error is ever buffered, and
+an error is reported only by an operation that demanded more bytes than the peer sent in front of
+that error, in script order (`io.EOF` after the script only when everything sent was delivered) —
+for every buffer size, wire script and operation sequence. -/
+theorem refines_fifo_ctl (size : Nat) (w : Wire) (ops : List Op) (outs : List Out) (s' : Reader) (w' : Wire)
+    (h : run (Reader.new size) w ops = .ok (outs, s', w')) :
+    acceptsCtl (Ctl.init w) (ops.zip (outs.map (Obs.ofOut id))) = true := by
+  obtain ⟨outs', s'', w'', h', hacc⟩ := run_ctl (Reader.new size) w ops (Ctl.init w) (CInv_new size w)
+  rw [h] at h'; cases h'
+  exact hacc
+
+/-- non-vacuity of `refines_fifo_ctl`: a run with a stashed `io.EOF`, a short peek that surfaces it, a
+failing skip and a pass-through `Read` exists … -/
+example :
+    (run (Reader.new 0) [.data [1, 2, 3] none, .data [4] (some errEOF)]
+        [.peek 2, .skip 1, .readByte, .peek 2, .peek 5, .skip 3, .readBinary 2, .release, .read 5000, .len]).toOption.map (·.1)
+      = some [⟨[1, 2], none, 3⟩, ⟨[], none, 2⟩, ⟨[2], none, 1⟩, ⟨[3, 4], none, 2⟩, ⟨[3, 4], some errEOF, 2⟩,
+              ⟨[], some errSkip, 2⟩, ⟨[3, 4], none, 0⟩, ⟨[], none, 0⟩, ⟨[], some errEOF, 0⟩, ⟨[], none, 0⟩] := by
+  decide +kernel
+
+/-- … and the acceptor is not trivially true: it rejects an invented `io.EOF` and a premature error -/
+example :
+    acceptsCtl (α := Bytes) (Ctl.init [.data [1, 2, 3] none]) [(.peek 2, ⟨0, [], some errEOF, 0⟩)] = false ∧
+    acceptsCtl (α := Bytes) (Ctl.init [.data [1, 2, 3] (some 7)]) [(.peek 2, ⟨0, [], some 7, 0⟩)] = false ∧
+    acceptsCtl (α := Bytes) (Ctl.init [.data [1, 2, 3] (some 7)]) [(.peek 4, ⟨3, [1, 2, 3], some 7, 3⟩)] = true := by
+  decide
+
+/-- One operation from any state tied to a control state (in particular any reachable one): it is
+accepted and the tie (`CInv`: `Ctl.len = Len()`, `Ctl.r` = buffered + on the wire, `Ctl.marks` = the
+stashed error `c.err` followed by the errors of the unread wire script at their byte positions) is kept. -/
+theorem step_is_ctl (s : Reader) (w : Wire) (op : Op) (c : Ctl) (h : CInv s w c) :
+    ∃ o s' w' c', step s w op = .ok (o, s', w') ∧ stepCtl c op (Obs.ofOut id o) = some c' ∧ CInv s' w' c' :=
+  step_ctl s w op c h
+
+/-- the hypothesis `CInv` holds initially -/
+example : CInv (Reader.new 8192) [.data [1, 2] (some errEOF)] (Ctl.init [.data [1, 2] (some errEOF)]) :=
+  CInv_new 8192 _
+
+/-- The `fill` loop stops at the first error event of the wire script: ending normally it consumed no
+error event; ending with a stashed (or returned) error that error is the first mark of the script and
+lies exactly behind the bytes read (or the script is exhausted and the error is `io.EOF`). -/
+theorem fill_loop_stops_at_first_error (w : Wire) (need room pos : Nat) :
+    ((fillLoop w need room).2.1 = .ok →
+        marksOf w pos = marksOf (fillLoop w need room).2.2 (pos + (fillLoop w need room).1.length)) ∧
+    (∀ e, (fillLoop w need room).2.1 = .stash e →
+        0 < (fillLoop w need room).1.length ∧
+        marksOf w pos = (pos + (fillLoop w need room).1.length, e) ::
+          marksOf (fillLoop w need room).2.2 (pos + (fillLoop w need room).1.length)) ∧
+    (∀ e, (fillLoop w need room).2.1 = .fail e →
+        (fillLoop w need room).1.length < need ∧
+        (marksOf w pos = (pos + (fillLoop w need room).1.length, e) ::
+            marksOf (fillLoop w need room).2.2 (pos + (fillLoop w need room).1.length) ∨
+         (e = errEOF ∧ (fillLoop w need room).2.2 = [] ∧ marksOf w pos = []))) :=
+  fillLoop_marks w need room pos
+
+/-- non-vacuity: a loop run that ends by stashing the error that came with the second piece of data -/
+example : fillLoop [.data [1] none, .data [2, 3] (some 9), .data [4] none] 5 8 = ([1, 2, 3], .stash 9, [.data [4] none]) := by
+  decide
+
+/-- Pointer-level form of `Peek`: `peekR` is the model's `peek` that also says where the returned
+slice lives (`peekR_proj`: forgetting the reference gives `peek` back).  Every result of `peek` has
+such a reference, and it is good in the resulting state: the slice is `buf[off : off+len]` of a
+node block (by identity) of the chain, lying inside the written part of that block, or a copy held
+in `caches`, or a private copy (`make`), or nil on an error return. -/
+theorem peek_in_block (s : Reader) (w : Wire) (n : Nat) (p : Bytes) (e : Option Err) (s' : Reader) (w' : Wire)
+    (h : peek s w n = .ok (p, e, s', w')) :
+    ∃ ref, peekR s w n = .ok ((p, ref), e, s', w') ∧ RefOK s' p ref := by
+  obtain ⟨ref, hr⟩ := peek_peekR s w n p e s' w' h
+  exact ⟨ref, hr, peekR_in_block s w n p ref e s' w' hr⟩
+
+/-- non-vacuity of `peek_in_block`: a `Peek(4096)` that straddles two 4 KiB blocks is answered by a copy
+in a fresh block (identity 2, the chain being blocks 0 and 1) registered in `caches` -/
+example :
+    (do let r0 ← run (Reader.new 0) [.data (List.replicate 4096 1) none, .data (List.replicate 4096 2) none] [.peek 4096, .skip 1]
+        let r ← peekR r0.2.1 r0.2.2 4096
+        pure (r.1.2, r.1.1.length, r.2.2.1.caches, r.2.2.1.nodes.map (fun (nd : Node) => nd.id))).toOption
+      = some (Ref.cache 2, 4096, [2], [0, 1]) := by
+  decide +kernel
+
+/-- `peekR` projects onto the model's `peek` -/
+theorem peekR_refines_peek (s : Reader) (w : Wire) (n : Nat) :
+    (peekR s w n).map (fun r => (r.1.1, r.2)) = peek s w n :=
+  peekR_proj s w n
+
+/-- A peeked slice stays unchanged until the next release, pointer-level: after any sequence of
+operations other than `Release` / `Read`, the reference handed out by `Peek` is still good with the
+*same* bytes — the block with that identity is still in the chain (neither freed nor reset) and
+`buf[off : off+len]` of it still reads `p`, i.e. no operation wrote into the referenced region; a
+cached copy is still held. -/
+theorem peeked_slice_unchanged (s : Reader) (w : Wire) (n : Nat) (p : Bytes) (ref : Ref) (e : Option Err)
+    (s1 : Reader) (w1 : Wire) (h : peekR s w n = .ok ((p, ref), e, s1, w1))
+    (ops : List Op) (outs : List Out) (s2 : Reader) (w2 : Wire)
+    (hk : ∀ op ∈ ops, op.keeps = true) (hr : run s1 w1 ops = .ok (outs, s2, w2)) :
+    RefOK s2 p ref := by
+  have hs := run_stable s1 w1 ops outs s2 w2 hk hr
+  exact RefOK_stable s1 s2 p ref hs.1 hs.2 (peekR_in_block s w n p ref e s1 w1 h)
+
+/-- non-vacuity: a peek inside one block (reference = block 0, offset 1 after a skip, length 2), and
+a following `Peek` that appends to the same block behind the region -/
+example :
+    (do let (_, s0) ← skip (← peek (Reader.new 0) [.data [1, 2, 3] none, .data [4] none] 1).2.2.1 1
+        let r ← peekR s0 [.data [4] none] 2
+        pure r.1).toOption = some ([2, 3], Ref.block 0 1 2) := by
+  decide +kernel
+
+/-- Block identities are pairwise distinct in every reachable state (the allocation counter only
+grows), and no cached peek copy shares its identity with a node of the chain: "the block `id`" is
+well defined. -/
+theorem block_ids_distinct (size : Nat) (w : Wire) (ops : List Op) (outs : List Out) (s' : Reader) (w' : Wire)
+    (h : run (Reader.new size) w ops = .ok (outs, s', w')) :
+    (∀ a ∈ s'.nodes, ∀ b ∈ s'.nodes, a.id = b.id → a = b) ∧ (∀ a ∈ s'.nodes, a.id ∉ s'.caches) :=
+  (run_ids _ _ _ _ _ _ h (IdInv_new size)).unique
+
+/-- The whole statement from a fresh connection: after any operation sequence `ops0`, a `Peek` that
+returned `buf[off : off+len]` of block `id`, and then any sequence `ops` of operations other than
+`Release` / `Read`: the block `id` is still in the chain, and *every* node with that identity (there
+is exactly one) still reads `p` at `[off, off+len)`. -/
+theorem peeked_block_unchanged (size : Nat) (w : Wire) (ops0 : List Op) (outs0 : List Out) (s : Reader) (w0 : Wire)
+    (h0 : run (Reader.new size) w ops0 = .ok (outs0, s, w0))
+    (n : Nat) (p : Bytes) (id off len : Nat) (e : Option Err) (s1 : Reader) (w1 : Wire)
+    (h : peekR s w0 n = .ok ((p, .block id off len), e, s1, w1))
+    (ops : List Op) (outs : List Out) (s2 : Reader) (w2 : Wire)
+    (hk : ∀ op ∈ ops, op.keeps = true) (hr : run s1 w1 ops = .ok (outs, s2, w2)) :
+    (∃ nd ∈ s2.nodes, nd.id = id) ∧ ∀ nd ∈ s2.nodes, nd.id = id → (nd.data.drop off).take len = p := by
+  have hI2 : IdInv s2 :=
+    run_ids _ _ _ _ _ _ hr (peek_ids _ _ _ _ _ _ _ (peekR_peek _ _ _ _ _ _ _ _ h) (run_ids _ _ _ _ _ _ h0 (IdInv_new size)))
+  have hok := peeked_slice_unchanged s w0 n p _ e s1 w1 h ops outs s2 w2 hk hr
+  refine ⟨?_, fun nd hm hid => ((RefOK_block_unique hI2 hok nd hm hid).1).symm⟩
+  obtain ⟨nd, hm, hid, _⟩ := hok
+  exact ⟨nd, hm, hid⟩
+
+/-- non-vacuity: fresh connection, `Peek(1)`, `Skip(1)`; then `Peek(2)` returns block 0 at offset 1;
+then `Peek(3)` (which reads the wire and appends to block 0) and `Len` keep it -/
+example :
+    (do let r0 ← run (Reader.new 0) [.data [1, 2, 3] none, .data [4] none] [.peek 1, .skip 1]
+        let r ← peekR r0.2.1 r0.2.2 2
+        let r2 ← run r.2.2.1 r.2.2.2 [.peek 3, .len]
+        pure (r.1, r2.2.1.nodes.map (fun (nd : Node) => (nd.id, nd.data)))).toOption
+      = some (([2, 3], Ref.block 0 1 2), [(0, [1, 2, 3, 4])]) := by
+  decide +kernel
+
 /-
-TODO-OPEN (stated, not yet proved; nothing above depends on it)
+TODO-OPEN
 
-1. Acceptance by the control acceptor for whole runs:
+Both statements of the former list are now theorems: `refines_fifo_ctl` (with the invariant
+`CInv`/`CI`/`MRel` of `Proofs/ConnCtl.lean` and the loop lemma `fill_loop_stops_at_first_error`), and
+`peek_in_block` + `peeked_slice_unchanged` + `block_ids_distinct` + `peeked_block_unchanged` (with
+`peekR`, a restatement of `peek` returning a `Ref`, proved to project onto `peek`).
 
-     theorem refines_fifo_ctl (size : Nat) (w : Wire) (ops : List Op) (outs : List Out) (s' : Reader) (w' : Wire)
-         (h : run (Reader.new size) w ops = .ok (outs, s', w')) :
-         acceptsCtl (Ctl.init w) (ops.zip (outs.map (Obs.ofOut id))) = true
+What the pointer-level statements do *not* say (limits of the model, not open proofs):
 
-   i.e. the `Len()` / size / error-justification rules of `Spec/Fifo.lean` (an operation satisfiable
-   from the buffer neither touches the wire nor fails; a wire error is reported only by an operation
-   that demanded more bytes than the peer sent in front of that error, and in script order) hold of
-   every model trace.  Proved so far are the per-operation ingredients: `len_is_buffered`,
-   `peek_rules` (no error ⇒ exactly n bytes, error ⇒ fewer), `skip_rules` (fails iff n > Len, and
-   then changes nothing), `release_keeps_data`.  Missing: an invariant relating the stashed error
-   `c.err` and the unread part of the wire script to `Ctl.marks` (position of every unreported
-   error), and a lemma on `fillLoop` saying it stops at the first error event.  The acceptor is
-   nevertheless evaluated on every implementation trace by the driver (zero rejections).
-
-2. `peek_in_block`: the slice returned by `peek` is `(nd.data.drop nd.off).take k` for a node `nd` of
-   the resulting chain, or a fresh copy registered in `caches` / not shared with any block.  Together
-   with `peek_stable_until_release` this is the pointer-level form of "stays unchanged"; the
-   model returns bytes, not references, so the statement needs a `Ref` result added to `peek`.
+* The model has no explicit memory: "nobody writes into the region" is expressed as "the written part
+  `data = buf[0:malloc]` of the block with that identity is only ever extended at its end by
+  non-releasing operations, and the block stays in the chain" (`Extends`).  Writes by the *caller*
+  through the returned slice, and reuse of a block by `mcache` after `Release`, are outside the model
+  (the correspondence check re-hashes peeked slices after every operation on the real code).
+* `Ref.fresh` / `Ref.cache` copies are immutable in the model by construction (nothing refers to them
+  but `caches`); the theorem for them is only that a cached copy stays registered until a release.
 -/
 
 /-! ## writer -/
